@@ -26,7 +26,9 @@ func (q *syntaxBasicCompareQuery) compute(
 	// leftFound == false && rightFound == false
 	if leftFound == rightFound {
 		if _, ok := q.comparator.(*syntaxCompareDeepEQ); ok {
-			return currentList
+			// Never hand out currentList itself: it may be the caller's
+			// own array, and the logical operators write into their operands.
+			return fullList
 		}
 	}
 
